@@ -1040,6 +1040,40 @@ func H_C14_Check(sel int, n int) {
 	verifReach("end")
 }
 
+// hostile token texts: invalid UTF-8 of several shapes, long runs, NUL, surrogate and overlong encodings
+var hostileTokens = []string{
+	strings.Repeat("\x80", 40),
+	"\xff",
+	"\xe3\x81",
+	strings.Repeat("\xc0\xaf", 20),
+	"\xed\xa0\x80\xed\xb0\x80",
+	"ab\x00cd" + strings.Repeat("\xbf", 64),
+	strings.Repeat("\xf4\x90\x80\x80", 9),
+	"\xe3\x81\x82" + strings.Repeat("\x80", 33),
+}
+
+// H_C14_hostile: n-1 canonical words (symbolic indices) and one hostile byte string as a token at pos;
+// the raw text goes to every function that takes a mnemonic. Only the absence of panics is asserted
+// (plus: such a sentence is never accepted).
+func H_C14_hostile(lg Language, n int, pos int, kind int) {
+	words := make([]string, n)
+	for i := range words {
+		if i == pos {
+			words[i] = hostileTokens[kind]
+		} else {
+			words[i] = verifGolden(lg, verifIntRange("w"+itoa(i), 0, 2047))
+		}
+	}
+	m := strings.Join(words, " ")
+	err := CheckMnemonic(m, lg)
+	verifAssert(err != nil, "hostile-token-rejected")
+	verifAssert(!IsMnemonicValid(m, lg), "hostile-token-invalid")
+	if err != nil {
+		_ = err.Error()
+	}
+	verifReach("end")
+}
+
 func H_C14_Seed() {
 	_ = MnemonicToSeed(verifOpaque("m"), verifOpaque("p"))
 	verifReach("end")
@@ -1516,6 +1550,7 @@ var verifHarnesses = map[string]func(a []int64){
 	"H_C02_complete":    func(a []int64) { H_C02_complete(Language(a[0]), int(a[1])) },
 	"H_C03":             func(a []int64) { H_C03(Language(a[0]), int(a[1]), int(a[2])) },
 	"H_C03_count":       func(a []int64) { H_C03_count(Language(a[0]), int(a[1])) },
+	"H_C14_hostile":     func(a []int64) { H_C14_hostile(Language(a[0]), int(a[1]), int(a[2]), int(a[3])) },
 	"H_C06_stuck":       func(a []int64) { H_C06_stuck(Language(a[0]), int(a[1]), int(a[2])) },
 	"H_C03_bytes":       func(a []int64) { H_C03_bytes(Language(a[0]), int(a[1]), int(a[2]), int(a[3]), int(a[4])) },
 	"H_C04":             func(a []int64) { H_C04() },
